@@ -239,6 +239,18 @@ def finish(prop, tier, seed, level, merged, problems, t0, cfg, extra_cov=None):
             have = merged["counters"].get(key, merged.get(key, 0))
         if have < minimum:
             floors_failed.append("%s=%s<%s" % (key, have, minimum))
+    # soft floors: indicators that depend on how the current implementation behaves (e.g. "the in-buffer
+    # seek shortcut was taken"); a property-preserving implementation may legitimately never show them,
+    # so an unmet soft floor is reported (stdout NOTE + evidence) but does not change the verdict
+    soft_unmet = []
+    for key, minimum in cfg.get("soft_floors", {}).items():
+        if "/" in key:
+            mp, k = key.split("/", 1)
+            have = merged["maps"].get(mp, {}).get(k, 0)
+        else:
+            have = merged["counters"].get(key, merged.get(key, 0))
+        if have < minimum:
+            soft_unmet.append("%s=%s<%s" % (key, have, minimum))
     if merged["distinct_nontrivial"] < 2:
         floors_failed.append("distinct_nontrivial=%d<2" % merged["distinct_nontrivial"])
 
@@ -252,6 +264,8 @@ def finish(prop, tier, seed, level, merged, problems, t0, cfg, extra_cov=None):
         "shards": NSHARDS,
         "coverage_floors": cfg.get("floors", {}),
         "coverage_floors_failed": floors_failed,
+        "implementation_indicators": cfg.get("soft_floors", {}),
+        "implementation_indicators_unmet": soft_unmet,
         "harness_problems": problems,
         "notes": merged["notes"],
         "exhaustive": bool(merged["counters"].get("exhaustive_complete", 0)) and cfg.get("exhaustive_part", False),
@@ -273,6 +287,8 @@ def finish(prop, tier, seed, level, merged, problems, t0, cfg, extra_cov=None):
     with open(os.path.join(EVID, prop + ".json"), "w") as f:
         json.dump(ev, f, indent=1, sort_keys=True)
 
+    for sf in soft_unmet:
+        print("NOTE property=%s implementation-dependent coverage indicator below its usual value: %s (verdict unaffected)" % (prop, sf))
     for sig, k in known_hits.items():
         print("KNOWN-FINDING: property=%s %s (%s)" % (prop, k.get("what", ""), sig))
     if new_viol:
